@@ -106,9 +106,19 @@ pub fn check(_ctx: &Ctx, input: &Input) -> CaseResult {
     // survival must not depend on configuration either: the second pair of
     // passes preserves the code transform (raw sections ignore it)
     // ... and the last pair switches the name and producers sections off
-    for (do_gc, code_transform, bare) in [(false, false, false), (true, false, false), (false, true, false), (true, true, false), (false, false, true), (true, false, true)] {
+    // ... and the last one asks for DWARF generation (which only takes the
+    // `.debug_*` sections, which are not judged here, out of the raw ones)
+    for (do_gc, code_transform, bare, dwarf) in [
+        (false, false, false, false),
+        (true, false, false, false),
+        (false, true, false, false),
+        (true, true, false, false),
+        (false, false, true, false),
+        (true, false, true, false),
+        (false, false, false, true),
+    ] {
         let base = if bare { wal::Cfg::bare() } else { wal::Cfg::plain() };
-        let cfg = wal::Cfg { code_transform, ..base }.to_config();
+        let cfg = wal::Cfg { code_transform, dwarf, ..base }.to_config();
         let mut m = match wal::parse(&p.bytes, &cfg) {
             Ok(Ok(m)) => m,
             _ => {
